@@ -91,6 +91,10 @@ func (g *progGen) atom() string {
 }
 
 func (g *progGen) expr(depth int) string {
+	if g.tp.Draw("expr.garbage", 60) == 0 {
+		// an expression that ends in operators and signs
+		return g.atom() + []string{"+-", "*-+", "--", "+", "-+-", "*", "/", "(", ")("}[g.tp.Draw("expr.garbage.kind", 9)]
+	}
 	k := g.tp.Draw("expr.kind", 10)
 	if depth <= 0 || k < 5 {
 		return g.atom()
@@ -141,7 +145,11 @@ func (g *progGen) instr(indent string) string {
 			case 0:
 				op = []string{"mul", "div", "mod", "seq", "sne", "nop"}[g.tp.Draw("ins.94op", 6)]
 			case 1:
-				am = []string{"*", "{", "}", ">"}[g.tp.Draw("ins.94am", 4)]
+				if g.tp.Draw("ins.94side", 2) == 0 {
+					am = []string{"*", "{", "}", ">"}[g.tp.Draw("ins.94am", 4)]
+				} else {
+					bm = []string{"*", "{", "}", ">"}[g.tp.Draw("ins.94bm", 4)]
+				}
 			default:
 				mod = "." + mods94[g.tp.Draw("ins.94mod", len(mods94))]
 			}
